@@ -231,6 +231,9 @@ WALK_TREE = {
     "d2/g.ts": "function g(a: number) {\n  return a;\n}\n", "d2/a.py": harness.py_function("alpha_third", 2),
     "d2/d3/h.py": harness.py_function("eta", 61), "d2/d3/b.js": harness.js_function("beta", 31),
 }
+# two DIFFERENT file names that are equal after Unicode normalisation, with different content (own small tree: 3! x 2! orders)
+NFC_TREE = {"caf\u00e9.py": harness.py_function("nfc_spelling", 6), "cafe\u0301.py": harness.py_function("nfd_spelling", 9), "z.py": harness.py_function("z", 2),
+            "s/caf\u00e9.js": harness.js_function("nfcJs", 4), "s/cafe\u0301.js": harness.js_function("nfdJs", 5)}
 
 
 class WalkOracle:
@@ -370,6 +373,12 @@ ENC_TREES = {
 }
 
 
+EXCL_TREE = {
+    # a root whose .gitignore and content match paths of the OTHER trees (patterns must not outlive this scan)
+    ".gitignore": "d1/\n*.ts\nr.py\nu.py\n", "d1/x.py": harness.py_function("x", 3), "keep.py": harness.py_function("keep", 3), "g.ts": "function g() {\n  return 1;\n}\n",
+}
+
+
 def scan_tree(files):
     from codelimit.common.Scanner import scan_path
 
@@ -389,6 +398,8 @@ def step_result(item_idx, tmp: Path):
         lang, text = p[item_idx]
         return measure(lang, text)
     kind = item_idx - len(p)
+    if kind == 4:
+        return scan_tree(EXCL_TREE)
     if kind == 2:
         return scan_tree(ENC_TREES["latin"])
     if kind == 3:
@@ -402,7 +413,7 @@ def step_result(item_idx, tmp: Path):
 
 
 def menu_size():
-    return len(pool()) + 4
+    return len(pool()) + 5
 
 
 def run_history(seq):
@@ -466,7 +477,7 @@ def eval_history(seq, refs):
     norm = lambda x: json.loads(json.dumps(x))
     for pos, (i, (got, fp)) in enumerate(zip(seq, res)):
         if norm(got) != norm(refs[str(i)] if str(i) in refs else refs[i]):
-            out.append(("result-depends-on-previously-analysed-files", {"item": "file" if i < len(pool()) else ["scan", "check", "scan-latin1-tree", "scan-utf8-tree"][i - len(pool())]},
+            out.append(("result-depends-on-previously-analysed-files", {"item": "file" if i < len(pool()) else ["scan", "check", "scan-latin1-tree", "scan-utf8-tree", "scan-tree-with-gitignore"][i - len(pool())]},
                         f"step {pos} (item {i}) after {seq[:pos]}: {str(got)[:200]} vs fresh-process {str(refs.get(i, refs.get(str(i))))[:200]}"))
             break
     fps = [fp for _, fp in res]
@@ -540,7 +551,8 @@ def _block(block, agg):
         for kd, sig, extra, d in viol:
             agg.violation(kd, sig, dict(case, **extra), d)
     elif kind == "walk":
-        viol, n_orders = explore_walk(WALK_TREE, agg, block[1], block[2])
+        tree = NFC_TREE if block[2] == 0 else WALK_TREE
+        viol, n_orders = explore_walk(tree, agg, block[1], max(1, block[2]))
         case = {"part": "walk", "shard": block[1], "of": block[2]}
         agg.case(case, True, f"{n_orders} distinct listing orders", sample=True)
         for kd, sig, extra, d in viol:
@@ -591,7 +603,7 @@ def replay(case):
         viol = explore_consume_order(case["language"], agg)
         return [{"kind": k, "sig": s, "detail": d} for k, s, _, d in viol]
     if case["part"] == "walk":
-        viol, _ = explore_walk(WALK_TREE, agg, case.get("shard", 0), case.get("of", 1))
+        viol, _ = explore_walk(NFC_TREE if case.get("of") == 0 else WALK_TREE, agg, case.get("shard", 0), max(1, case.get("of", 1)))
         return [{"kind": k, "sig": s, "detail": d} for k, s, _, d in viol]
     if case["part"] == "history":
         viol, _ = eval_history(case["seq"], reference_results())
@@ -617,6 +629,7 @@ def run(ctx: core.Ctx):
         blocks.append(("consume", lang))
     for sh in range(12):
         blocks.append(("walk", sh, 12))
+    blocks.append(("walk", 0, 0))  # the NFC/NFD tree, all orders
     refs = reference_results()
     seqs = []
     for n in range(1, hist_len + 1):
